@@ -159,6 +159,10 @@ func ruleCliRegisterBeforeWrite(p *Prog, r *Out) {
 	r.fn("(*Conn).writeRequest")
 	writes := p.findCall(f, "(*FrameHeader).WriteTo")
 	if len(writes) == 0 {
+		// the HEADERS frame (and its CONTINUATIONs) are written by writeHeaderBlock
+		writes = p.findCall(f, "(*Conn).writeHeaderBlock")
+	}
+	if len(writes) == 0 {
 		r.bad("write", p.pos(f.Pos()), "writeRequest never writes the HEADERS frame")
 		return
 	}
